@@ -1684,3 +1684,120 @@ Proof.
     { apply (coords_of_srcs _ _ _ _ _ _ c o Hnd Hcs Hcin). rewrite Hsplit. now left. }
     congruence.
 Qed.
+
+(* ================================================================ dataset-level coordinate theorem *)
+(* a coordinate lies on exactly the declared axes of each of its sources, which occur in the MapSpecs *)
+Lemma coords_of_axes specs inputs loadable li o cs c n :
+  coords_of specs inputs loadable li o = Ok cs -> In c cs -> In n (co_srcs c) ->
+  map Some (co_axes c) = axes_of specs n /\ In n (map aname (all_aspecs specs)).
+Proof.
+  intros Hcs Hc Hn. unfold coords_of in Hcs.
+  destruct (coords_raw_of specs inputs loadable li o) as [raw|] eqn:R; [|discriminate].
+  cbn [bind] in Hcs. injection Hcs as <-. apply coords_dict_sub in Hc.
+  unfold coords_raw_of in R. destruct (trace specs) as [tr|]; [|discriminate]. cbn [bind] in R.
+  destruct (existsb _ (target_of tr o)); [discriminate|].
+  destruct (existsb (fun na => negb (mem_str (fst na) (map aname (all_aspecs specs)))) (target_of tr o)) eqn:Ex;
+    [discriminate|]. injection R as <-.
+  unfold coords_raw in Hc. apply in_flat_map in Hc as [[ax names] [Hg Hcg]].
+  apply group_coords_sub in Hcg as [Hax Hsub]. apply Hsub in Hn. cbn [fst snd] in Hn, Hax. rewrite Hax.
+  apply (In_dget key_eqb key_eqb_eq) in Hg; [|apply group_NoDup].
+  assert (Hk : In (n, ax) (kept_of specs inputs li (target_of tr o))) by (apply group_get; now exists names).
+  unfold kept_of in Hk. apply filter_In in Hk as [Hk Hf]. apply andb_true_iff in Hf as [_ Hf].
+  unfold full_axes in Hf. cbn [fst snd] in Hf. split.
+  - apply (list_eqb_eq axis_eqb axis_eqb_eq) in Hf. exact Hf.
+  - destruct (mem_str n (map aname (all_aspecs specs))) eqn:M; [now apply mem_str_In|].
+    exfalso. assert (existsb (fun na => negb (mem_str (fst na) (map aname (all_aspecs specs)))) (target_of tr o) = true).
+    { apply existsb_exists. exists (n, ax). split; [assumption|]. cbn. now rewrite M. }
+    congruence.
+Qed.
+
+Lemma ds_arrays_coords specs inputs outputs li ds a :
+  dataset_vars specs inputs outputs li = Ok ds -> In a (ds_arrays ds) ->
+  coords_of specs inputs outputs li (da_name a) = Ok (da_coords a).
+Proof.
+  unfold dataset_vars.
+  destruct (mapM _ (filter (fun n => mem_str n outputs) (flat_map (fun m => map aname (outs m)) specs)))
+    as [arrays|e] eqn:A; [|discriminate]. cbn [bind]. intros [= <-]. cbn [ds_arrays]. intros Ha.
+  apply filter_In in Ha as [Ha _]. apply dset_fold_In in Ha as [[]|Ha].
+  apply mapM_inv in A. destruct (Forall2_In_r _ _ _ _ A Ha) as [o [Ho Hf]].
+  destruct (coords_of specs inputs outputs li o) as [cs|] eqn:C; [|discriminate]. cbn [bind] in Hf.
+  destruct (dims_of specs o) as [dm|]; [|discriminate]. cbn [bind] in Hf. now injection Hf as <-.
+Qed.
+
+(* the property's coordinate clause on the merged Dataset: a visible one-dimensional array x carried along
+   axis k to a computed output o of the run appears in the Dataset as a source of a coordinate on exactly
+   (k,), and of no Dataset coordinate on other axes *)
+Theorem dataset_coord_on_exact_axis specs inputs outputs li ds o ms k x :
+  NoDup (out_names specs) -> consistent (all_aspecs specs) = true ->
+  forallb wf_aspec (all_aspecs specs) = true ->
+  (forall m a, In m specs -> In a (outs m) -> no_colon_axes a) ->
+  dataset_vars specs inputs outputs li = Ok ds ->
+  computed_by specs o = Some ms -> In o outputs ->
+  one_dimensional specs x -> visible inputs li x = true ->
+  In x (carried (trace_fuel specs) specs o k) ->
+  (exists c, In c (ds_coords ds) /\ co_axes c = [k] /\ In x (co_srcs c))
+  /\ (forall c, In c (ds_coords ds) -> In x (co_srcs c) -> co_axes c = [k]).
+Proof.
+  intros Hnd Hc Hwf Hnc Hds Hcomp Ho H1 Hv Hx.
+  destruct (carried_axes _ _ _ _ _ Hc H1 Hx) as [Hax _].
+  assert (Hall : forall c, In c (ds_coords ds) -> In x (co_srcs c) -> co_axes c = [k]).
+  { intros c Hcin Hsrc. destruct (proj2 (ds_coords_union ds) c Hcin) as [a [Ha Hca]].
+    pose proof (ds_arrays_coords _ _ _ _ _ _ Hds Ha) as Hcs.
+    destruct (coords_of_axes _ _ _ _ _ _ _ _ Hcs Hca Hsrc) as [E _]. rewrite Hax in E.
+    destruct (co_axes c) as [|k0 [|k1 rest]]; try discriminate. now injection E as ->. }
+  split; [|exact Hall].
+  destruct (proj2 (dataset_arrays_spec _ _ _ _ _ Hnd Hc Hwf Hnc Hds) o ms Hcomp Ho) as [a [Ha Hna]].
+  pose proof (ds_arrays_coords _ _ _ _ _ _ Hds Ha) as Hcs. rewrite Hna in Hcs.
+  destruct (coord_on_axis_full _ _ _ _ _ _ _ _ Hnd Hc Hwf H1 Hv Hx Hcs) as [[c [Hcin [Hcax Hcx]]] _].
+  destruct (proj1 (ds_coords_union ds) a c Ha Hcin) as [c' [Hc' Hname]].
+  exists c'. split; [assumption|].
+  (* same name => same sources *)
+  destruct (proj2 (ds_coords_union ds) c' Hc') as [a2 [Ha2 Hc2]].
+  pose proof (ds_arrays_coords _ _ _ _ _ _ Hds Ha2) as Hcs2.
+  destruct (coords_of_name _ _ _ _ _ _ _ Hcs Hcin) as [Hj Hne].
+  destruct (coords_of_name _ _ _ _ _ _ _ Hcs2 Hc2) as [Hj2 Hne2].
+  assert (Hfree : forall (o' : str) cs' c0, coords_of specs inputs outputs li o' = Ok cs' -> In c0 cs' ->
+            forall n, In n (co_srcs c0) -> mem_char ":"%char n = false).
+  { intros o' cs' c0 Hcs' Hc0 n Hn. destruct (coords_of_axes _ _ _ _ _ _ _ _ Hcs' Hc0 Hn) as [_ Hin].
+    apply in_map_iff in Hin as [asp [<- Hasp]]. now apply (wf_names_nocolon specs Hwf). }
+  assert (Hs : co_srcs c' = co_srcs c).
+  { apply (join_inj ":"%char); [assumption|assumption|exact (Hfree _ _ _ Hcs2 Hc2)|exact (Hfree _ _ _ Hcs Hcin)|].
+    change [":"%char] with (s ":"). now rewrite <- Hj, <- Hj2. }
+  assert (Hx' : In x (co_srcs c')) by now rewrite Hs.
+  split; [now apply Hall|assumption].
+Qed.
+
+Theorem dataset_zipped_multiindex specs inputs outputs li ds o ms k x z :
+  NoDup (out_names specs) -> consistent (all_aspecs specs) = true ->
+  forallb wf_aspec (all_aspecs specs) = true ->
+  (forall m a, In m specs -> In a (outs m) -> no_colon_axes a) ->
+  dataset_vars specs inputs outputs li = Ok ds ->
+  computed_by specs o = Some ms -> In o outputs ->
+  one_dimensional specs x -> visible inputs li x = true ->
+  one_dimensional specs z -> visible inputs li z = true ->
+  In x (carried (trace_fuel specs) specs o k) -> In z (carried (trace_fuel specs) specs o k) -> x <> z ->
+  exists c, In c (ds_coords ds) /\ co_axes c = [k] /\ In x (co_srcs c) /\ In z (co_srcs c)
+            /\ co_name c = join (s ":") (co_srcs c).
+Proof.
+  intros Hnd Hc Hwf Hnc Hds Hcomp Ho H1 Hv H1z Hvz Hx Hz Hne.
+  destruct (proj2 (dataset_arrays_spec _ _ _ _ _ Hnd Hc Hwf Hnc Hds) o ms Hcomp Ho) as [a [Ha Hna]].
+  pose proof (ds_arrays_coords _ _ _ _ _ _ Hds Ha) as Hcs. rewrite Hna in Hcs.
+  destruct (zipped_multiindex_full _ _ _ _ _ _ _ _ _ Hnd Hc Hwf H1 Hv H1z Hvz Hx Hz Hne Hcs)
+    as [c [Hcin [Hcax [Hcx [Hcz Hcn]]]]].
+  destruct (proj1 (ds_coords_union ds) a c Ha Hcin) as [c' [Hc' Hname]].
+  destruct (proj2 (ds_coords_union ds) c' Hc') as [a2 [Ha2 Hc2]].
+  pose proof (ds_arrays_coords _ _ _ _ _ _ Hds Ha2) as Hcs2.
+  destruct (coords_of_name _ _ _ _ _ _ _ Hcs Hcin) as [Hj Hnec].
+  destruct (coords_of_name _ _ _ _ _ _ _ Hcs2 Hc2) as [Hj2 Hne2].
+  assert (Hfree : forall (o' : str) cs' c0, coords_of specs inputs outputs li o' = Ok cs' -> In c0 cs' ->
+            forall n, In n (co_srcs c0) -> mem_char ":"%char n = false).
+  { intros o' cs' c0 Hcs' Hc0 n Hn. destruct (coords_of_axes _ _ _ _ _ _ _ _ Hcs' Hc0 Hn) as [_ Hin].
+    apply in_map_iff in Hin as [asp [<- Hasp]]. now apply (wf_names_nocolon specs Hwf). }
+  assert (Hs : co_srcs c' = co_srcs c).
+  { apply (join_inj ":"%char); [assumption|assumption|exact (Hfree _ _ _ Hcs2 Hc2)|exact (Hfree _ _ _ Hcs Hcin)|].
+    change [":"%char] with (s ":"). now rewrite <- Hj, <- Hj2. }
+  exists c'. rewrite Hs. repeat split; try assumption.
+  - destruct (dataset_coord_on_exact_axis _ _ _ _ _ _ _ _ _ Hnd Hc Hwf Hnc Hds Hcomp Ho H1 Hv Hx) as [_ Hall].
+    apply Hall; [assumption|now rewrite Hs].
+  - now rewrite Hj2, Hs.
+Qed.
